@@ -219,6 +219,12 @@ func (c *Conversation) processTLVs(tlvs []tlv, x dataMessageExtra) ([]tlv, error
 		if toSend != nil {
 			retTLVs = append(retTLVs, *toSend)
 		}
+
+		if t.tlvType == tlvTypeDisconnected {
+			// the session this message belongs to has ended: records behind the
+			// disconnect have no session (keys, version, SMP state) to be processed in
+			break
+		}
 	}
 
 	return retTLVs, nil
